@@ -27,6 +27,19 @@ claim('C01', 'effect analysis over resolved MIR (banned-source reachability, has
       'rustc type checker + exported MIR; std float functions deterministic per platform; unsafe code sound (C11); '
       'rosu-map/rosu-mods at locked versions', 'DESIGN.md §5 C01')
 
+claim('C02', 'sibling comparison of entry points over resolved MIR (parameter-use classification + preprocessor sets with dominating guards)',
+      'Decides one necessary clause: gradual constructor and one-shot calculation of each mode start from the same converted '
+      'and preprocessed map (same convert_ref(mode, mods), same &mut Beatmap preprocessors under the same guards). '
+      'Equality of values per prefix is numeric and not decided. The suite uses no mods in gradual tests, so a forgotten '
+      'preprocessor is invisible to it.',
+      'exported MIR + resolved call graph; helper following bounded at depth 3', 'DESIGN.md §5 C02')
+claim('C07', 'sibling decision-tree comparison, arm summaries of GameMode switches, parameter-use classification, provenance of forwarded fields',
+      'Decides the dispatch/conversion shape for all entry points, arms and paths: convert_ref/convert_mut path sets equal, '
+      'convert()=convert_mut(self); all 16 IGameMode entries convert first with own mode + Difficulty mods; every GameMode arm '
+      'in the crate names only its own mode; sibling entries preprocess alike; TryFrom<OsuPerformance> forwards per table; '
+      'try_convert_map pairs Borrowed/convert_ref and Owned/convert_mut. Numerical equality follows but is not computed.',
+      'exported MIR; GameMode has exactly four variants; forwarding table for TryFrom confirmed by reading', 'DESIGN.md §5 C07')
+
 PENDING = ['C02', 'C03', 'C04', 'C05', 'C06', 'C07', 'C08', 'C10', 'C11', 'C12', 'C14', 'C15', 'C16', 'C17', 'C18',
            'C19', 'C20']
 
